@@ -15,6 +15,9 @@ def main():
     assert bitdom.bmux(a.bits[0], bitdom.ONE, bitdom.ZERO) == a.bits[0]
     from . import lin
     lin.selftest()
+    from . import engine_tests
+    n = engine_tests.run()
+    print('ufwsa engine cases ok: %d' % n)
     print('ufwsa selftest ok')
     return 0
 
